@@ -9,7 +9,9 @@ package driver
 
 import (
 	"encoding/json"
+	"fmt"
 	"os"
+	"strings"
 	"sync"
 	"time"
 
@@ -62,6 +64,9 @@ type Script struct {
 	Steps    []Step    `json:"steps"`
 	Seed     int64     `json:"seed"`
 	Slow     bool      `json:"slow"` // the data store takes (virtual) time to write: saves can be in flight
+	// Gated: the scheduler loops are parked at an iteration boundary (poll gate hook) and run one iteration per poll step;
+	// time steps are much longer than a poll, so a script follows its model behaviour step by step
+	Gated bool `json:"gated"`
 }
 
 // ---- vocabulary ----
@@ -210,6 +215,14 @@ type State struct {
 	ShutAt int        `json:"shutAt"`
 	Forced bool       `json:"forced"`
 	Idle   int        `json:"idle"` // ms since the reported jobs/pipelines last changed
+	Conf   ConfObs    `json:"conf"`
+}
+
+// ConfObs: the projection of the reported state onto the variables of the model (Prunner!CoreState), recorded at the
+// quiescent moment after each step of a gated script
+type ConfObs struct {
+	Has  bool   `json:"has"`
+	Proj string `json:"proj"`
 }
 
 type Event struct {
@@ -256,6 +269,7 @@ type world struct {
 	dirty  bool // event lines were written since the last quiescent snapshot line
 	gen    int  // runner generation (incremented by restart); events of older generations are muted
 	// idle tracking
+	gateFree   chan struct{} // closed at teardown: parked scheduler loops run freely
 	staleStore bool
 	jobsDigest string
 	chgAt      int
@@ -266,6 +280,37 @@ type world struct {
 func (w *world) digest() string {
 	b, _ := json.Marshal([]interface{}{w.st.Jobs, w.st.Pipes, w.st.Store, w.st.Logs, w.st.Extra, w.st.XLogs})
 	return string(b)
+}
+
+// projection: the part of the observed state that is compared with the model's CoreState (same canonical form as
+// lib/planner.py: per job [listed, started, completed, canceled, lastErr class, task statuses, open tasks])
+func (w *world) projection() string {
+	var sb strings.Builder
+	for i, j := range w.st.Jobs {
+		if i > 0 {
+			sb.WriteByte(';')
+		}
+		le := j.LastErr
+		fmt.Fprintf(&sb, "%d%d%d%d:%s:", b2i(j.Listed), b2i(j.Started), b2i(j.Completed), b2i(j.Canceled), le)
+		for _, t := range j.Tasks {
+			sb.WriteString(t.Status)
+			sb.WriteByte(',')
+		}
+		sb.WriteByte(':')
+		for ti, r := range w.st.Runs[i] {
+			if r.Open {
+				fmt.Fprintf(&sb, "%d,", ti+1)
+			}
+		}
+	}
+	return sb.String()
+}
+
+func b2i(b bool) int {
+	if b {
+		return 1
+	}
+	return 0
 }
 
 func (w *world) nowMs() int {
